@@ -1,0 +1,20 @@
+//go:build verif
+
+package verifexport
+
+import (
+	iec "github.com/nspcc-dev/neofs-node/internal/ec"
+	isessions "github.com/nspcc-dev/neofs-node/internal/sessions"
+)
+
+// RPCECRule is an alias of the internal EC rule type (needed to implement the
+// FSChain / NeoFSNetwork interfaces of the object services outside the repository).
+type RPCECRule = iec.Rule
+
+// RPCSessionsCache is an alias of the internal object sessions cache type.
+type RPCSessionsCache = isessions.ObjectSessionsCache
+
+// RPCNewSessionsCache is [isessions.NewObjectSessionsCache].
+func RPCNewSessionsCache(size int) *RPCSessionsCache {
+	return isessions.NewObjectSessionsCache(size)
+}
